@@ -128,6 +128,8 @@ def run(ctx):
             bad("ts-ext", "ts_ext has %d entries ending at %r" % (r["len_ts_ext"], float.fromhex(r["ts_ext_last"])))
         if not r.get("ts_ext_follows_ts", True):
             bad("ts-ext", "ts_ext is not the frame's time axis plus one step when that axis does not start at 0 (as inside a cadence)")
+        if r.get("retime"):
+            bad("derived-after-retime", r["retime"])
         if not r["roundtrip_all"]:
             bad("index-roundtrip", "get_index(get_frequency(j)) != j for some channel (fchans=%d, fch1/df=%.3g)" % (F, f1 / df))
         if not r["index_of_fs_all"]:
